@@ -9,9 +9,10 @@ from props.c09 import reference_script
 HEADER = ls.HEADER
 
 
-def terminate(d: ls.Driver):
-    """whatever state the connection is in: the client goes away and pending work completes"""
-    if d.blocked() != "done":
+def terminate(d: ls.Driver, eof=True):
+    """whatever state the connection is in: the client goes away (unless the connection was killed: then it has to end by
+    itself) and pending work completes"""
+    if d.blocked() != "done" and eof:
         d.simple("EvEof")
     for _ in range(60):
         b = d.blocked()
@@ -83,6 +84,10 @@ def run_faulted(rng, depeof, faults, batch=2):
                     d.simple("EvBadSeq")   # (inside an auth exchange the stream would be left desynchronised: C07's business)
             elif f[0] == "sockfail":
                 d.simple("EvSockFail")
+            elif f[0] == "kill":
+                for k in f[1]:
+                    if d.blocked() != "done":
+                        d.kill(k, selfkill=False)
             elif f[0] == "raise":
                 if d.blocked() == "app":
                     if d.pending_call() == "get_user":
@@ -92,8 +97,11 @@ def run_faulted(rng, depeof, faults, batch=2):
                     continue
         if act is not None and d.blocked() != "done":
             act(d)
-    terminate(d)
+    killed = any(e == "EvKill KC" for e in d.events)
+    terminate(d, eof=not killed)
     w = lifecycle_oracle(d)
+    if w and killed:
+        w["problem"] = "after KILL CONNECTION: " + w["problem"]
     d.close()
     return d, w
 
@@ -111,6 +119,9 @@ def run(ctx: core.Ctx):
         plans.append({i: ("raise", None)})
         plans.append({i: ("raise", 1064)})
         plans.append({i: ("badseq",)})
+        plans.append({i: ("kill", ["KC"])})
+        plans.append({i: ("kill", ["KQ", "KC"])})
+        plans.append({i: ("kill", ["KC", "KQ"])})
     single = len(plans)
     pairs = [(i, j) for i in range(n + 1) for j in range(i + 1, n + 1)]
     kinds = [("eof",), ("sockfail",), ("raise", None), ("eofmid", 2)]
